@@ -46,6 +46,9 @@ type worker struct {
 	progs map[string]lisp.Program
 	defs  [4]*worker // runtimes whose option defaults were set with json:use-*
 	evals int64      // programs evaluated on this runtime
+
+	bound    bool   // c13-ds / c13-db / c13-dm are bound to boundDoc
+	boundDoc string
 }
 
 func (w *worker) evalCount() int64 {
@@ -166,6 +169,10 @@ func loadSrc(loader string, sn, ei, defaults bool) string {
 }
 
 func (w *worker) bindDoc(doc []byte) {
+	if w.bound && w.boundDoc == string(doc) {
+		return
+	}
+	w.bound, w.boundDoc = true, string(doc)
 	w.set("c13-ds", lisp.String(string(doc)))
 	w.set("c13-db", lisp.Bytes(append([]byte{}, doc...)))
 	rm := json.RawMessage(append([]byte{}, doc...))
